@@ -73,8 +73,8 @@ func c2x() float64 {
 	vrt.Assume(x >= 0 && x < 1)
 	e := 1023 - (xb >> 52)
 	mant := xb & (1<<52 - 1)
-	vrt.Assume(xb == 0 || (e <= 52 && mant&(uint64(1)<<e-1) == 0))
-	vuX = x
+	vrt.Assume(xb != 0 && e <= 52 && mant&(uint64(1)<<e-1) == 0) // computeRandom never yields 0 (see VC11_random)
+	vuSetX(x)
 	return x
 }
 
